@@ -613,6 +613,14 @@ def oracle(t0, t1, res, ordered, reduce, snap):
     if r:
         return r, st
 
+    # The re-classification works on data_ids (C11_moved_pairs, C11_moves_complete speak about data_ids); in terms of
+    # the DATA it is what (6) says when == and data_id agree on all nodes of both trees (C11_moved_pairs_same_data),
+    # which the domain of the projection laws does not imply for nodes that are never compared with each other.
+    if not ids_agree_globally(t0, t1):
+        if reduce:
+            return check_reduce(got, full, got_root_meta, root_meta), st
+        return None, st
+
     # (6) MOVED_HERE => a MOVED_TO with equal data exists (and conversely); a REMOVED mark survives only if no node copied
     #     from an added t1 branch has equal data
     flat = []
@@ -643,19 +651,33 @@ def oracle(t0, t1, res, ordered, reduce, snap):
 
     # (7) reduce = marked nodes and their ancestors
     if reduce:
-        def keep(f):
-            out = []
-            for d, m, k in f:
-                kk = keep(k)
-                if bool(dc_of(m)) or kk:
-                    out.append((d, m, kk))
-            return out
-
-        if got != keep(full):
-            return "reduce: result is not 'marked nodes and their ancestors' of the unreduced result of the same run", st
-        if got_root_meta != root_meta:
-            return "reduce: root meta changed", st
+        return check_reduce(got, full, got_root_meta, root_meta), st
     return None, st
+
+
+def check_reduce(got, full, got_root_meta, root_meta):
+    def keep(f):
+        out = []
+        for d, m, k in f:
+            kk = keep(k)
+            if bool(dc_of(m)) or kk:
+                out.append((d, m, kk))
+        return out
+
+    if got != keep(full):
+        return "reduce: result is not 'marked nodes and their ancestors' of the unreduced result of the same run"
+    if got_root_meta != root_meta:
+        return "reduce: root meta changed"
+    return None
+
+
+def ids_agree_globally(t0, t1):
+    nodes = B.all_nodes(t0._root) + B.all_nodes(t1._root)
+    for i, a in enumerate(nodes):
+        for b in nodes[i + 1:]:
+            if bool(a._data == b._data) != (a._data_id == b._data_id):
+                return False
+    return True
 
 
 def shape(n):
